@@ -166,3 +166,43 @@ Theorem C05_code_space_plan_of_a_model :
               (match rs with [] => None | _ => Some (map fst rs) end)).
 Proof. split; [exact plan_of_a_model_without_filters|exact plan_of_a_model_with_filters]. Qed.
 Print Assumptions C05_code_space_plan_of_a_model.
+
+(* ---- the order of variable_info, on which the axis order rests: the regenerated get_variable_info (Gen/VariableInfo.v) --------- *)
+From LCM Require Import Model.PyVocab Gen.VariableInfo Proofs.C05_VariableInfo Proofs.C05_VariableInfoTie.
+(* for ALL declaration orders of states and choices (any interleaving of restricted, discrete and continuous variables), any      *)
+(* stochastic / auxiliary flags and any set of filter-restricted variables: the state rows of variable_info — the axes of the value  *)
+(* arrays — are the restricted states, then the unrestricted discrete states, then the continuous states, each in declaration order *)
+Theorem C05_code_state_axes_follow_the_declaration_order :
+  forall (is_stochastic_next : string -> bool) (auxiliary_variables filtered_variables : list string) (states choices : list (string * bool)),
+  NoDup (map fst states ++ map fst choices) ->
+  exists vi, get_variable_info is_stochastic_next auxiliary_variables filtered_variables states choices = Some vi /\
+  map vname (filter is_state vi)
+  = (map fst (filter (restricted filtered_variables) states)
+     ++ map fst (filter (fun var => negb (restricted filtered_variables var) && negb (snd var)) states)
+     ++ map fst (filter (fun var => negb (restricted filtered_variables var) && snd var) states))%list.
+Proof. exact state_axes_in_declaration_order. Qed.
+Print Assumptions C05_code_state_axes_follow_the_declaration_order.
+
+(* and the whole table IS the variable_info (vi_sparse) on which the plan, axis, layout and period theorems of C01/C02/C05/C18 are     *)
+(* stated, the six groups being the declarations filtered in declaration order                                                       *)
+Theorem C05_code_variable_info_is_the_models :
+  forall (is_stochastic_next : string -> bool) (filtered_variables : list string) (S C : list (string * grid)),
+  NoDup (map fst S ++ map fst C) ->
+  (forall sg, In sg S -> is_stochastic_next ("next_" ++ fst sg)%string = false) ->
+  (forall sg, In sg (S ++ C)%list -> mem_str (fst sg) filtered_variables = true -> is_cont (snd sg) = false) ->
+  let R := fun sg : string * grid => mem_str (fst sg) filtered_variables in
+  get_variable_info is_stochastic_next [] filtered_variables (map of_sg S) (map of_sg C)
+  = Some (vi_sparse (filter R S) (filter R C)
+                    (filter (fun sg => negb (R sg) && negb (is_cont (snd sg))) S) (filter (fun sg => negb (R sg) && negb (is_cont (snd sg))) C)
+                    (filter (fun sg => negb (R sg) && is_cont (snd sg)) S) (filter (fun sg => negb (R sg) && is_cont (snd sg)) C)).
+Proof. exact regenerated_variable_info_is_the_models. Qed.
+Print Assumptions C05_code_variable_info_is_the_models.
+
+Local Open Scope string_scope.
+Example C05_variable_info_nonvacuous :
+  (* declared: states wealth (continuous), health (discrete, restricted), lagged (discrete); choices cons (continuous), work (discrete, restricted) *)
+  match get_variable_info (fun _ => false) [] ["work"; "health"] [("wealth", true); ("health", false); ("lagged", false)] [("cons", true); ("work", false)] with
+  | Some vi => map vname vi = ["health"; "work"; "lagged"; "wealth"; "cons"] /\ map vname (filter is_state vi) = ["health"; "lagged"; "wealth"]
+  | None => False
+  end.
+Proof. vm_compute. split; reflexivity. Qed.
